@@ -119,7 +119,7 @@ def gen_ops(rng, present, n):
     return ops, present
 
 
-TAMPERS = [None, None, "edit", "add", "delete", "rename", "rewrite", "excluded", "link_edit", "link_swap", "link_remove"]
+TAMPERS = [None, None, "edit", "add", "delete", "rename", "rewrite", "excluded", "link_edit", "link_swap", "link_remove", "link_forge"]
 
 
 def apply_file_tamper(rng, work, kind, opts=None):
@@ -201,6 +201,10 @@ class Honest:
                     self.tamper_applied = apply_file_tamper(rng, self.work, tamper, opts)
                 gpg = W.gpg_available() and rng.random() < 0.12
                 k = W.gpg_key(rng.choice(["no_sub", "no_sub2"])) if gpg else rng.choice([x for x in pool if x is not self.owner])
+                # sometimes the step authorises a second functionary, listed first, who does not take part
+                extra = None
+                if rng.random() < 0.1 or (tamper == "link_forge" and i == n_steps - 1):
+                    extra = rng.choice([x for x in pool if x is not self.owner and x is not k])
                 sign_kw = {"gpg_keyid": k.gpg_id, "gpg_home": k.gpg_home} if gpg else {"signer": k.signer}
                 dsse = (not gpg) and rng.random() < 0.5
                 ops, present = gen_ops(rng, covered(snapshot(self.work), dict(opts, lstrip=None)), rng.randrange(1, 4))
@@ -222,15 +226,29 @@ class Honest:
                         rl.in_toto_record_stop(name, ["."], metadata_directory=self.links, **sign_kw, **kw)
                         md = None
                 after = snapshot(self.work)
-                self.steps.append({"name": name, "key": k, "dsse": dsse, "mode": mode, "streams": streams, "cmd": cmd,
+                self.steps.append({"name": name, "key": k, "extra": extra, "dsse": dsse, "mode": mode, "streams": streams, "cmd": cmd,
                                    "before": before, "after": after, "returned": md,
                                    "file": os.path.join(self.links, "%s.%s.link" % (name, k.keyid[:8]))})
             if tamper in file_tampers and tamper_at >= n_steps:
                 self.tamper_applied = apply_file_tamper(rng, self.work, tamper, opts)
+            if tamper == "link_forge":
+                # the final product is edited, and a link for the last step that matches the edited tree - signed by a
+                # key the layout does not know - is dropped under the file name of the step's first-listed functionary
+                st = self.steps[-1]
+                if apply_file_tamper(rng, self.work, "edit", opts):
+                    from in_toto.models.metadata import Metadata, Metablock, Envelope
+                    genuine = Metadata.load(st["file"])
+                    pl = genuine.get_payload()
+                    pl.products = covered(snapshot(self.work), opts)
+                    forged = Envelope.from_signable(pl) if st["dsse"] else Metablock(signed=pl)
+                    stranger = [x for x in pool if x is not self.owner and x is not st["key"] and x is not st["extra"]][0]
+                    forged.create_signature(stranger.signer)
+                    forged.dump(os.path.join(self.links, "%s.%s.link" % (st["name"], st["extra"].keyid[:8])))
+                    self.tamper_applied = True
         finally:
             os.chdir(cwd)
         # link tampers
-        if tamper and tamper.startswith("link_"):
+        if tamper and tamper.startswith("link_") and tamper != "link_forge":
             st = self.steps[min(tamper_at, n_steps - 1)]
             if tamper == "link_remove":
                 os.remove(st["file"])
@@ -257,6 +275,10 @@ class Honest:
         for st in self.steps:
             k = st["key"]
             keys[k.keyid] = k.pub
+            pubkeys = [k.keyid]
+            if st.get("extra") is not None:
+                keys[st["extra"].keyid] = st["extra"].pub
+                pubkeys = [st["extra"].keyid, k.keyid]
             prods = covered(st["after"], opts)
             mats = []
             if prev is not None:
@@ -266,7 +288,7 @@ class Honest:
                 mats += [["ALLOW", "*"]]
             mats += [["DISALLOW", "*"]]
             prules = [["REQUIRE", p] for p in sorted(prods)] + [["ALLOW", "*"], ["DISALLOW", "*"]]
-            steps.append(W.step_payload(st["name"], [k.keyid], 1, mats, prules, st["cmd"]))
+            steps.append(W.step_payload(st["name"], pubkeys, 1, mats, prules, st["cmd"]))
             prev = st
         last = self.steps[-1]
         # the inspection records '.' in the final tree with the default patterns and without prefix stripping
